@@ -674,6 +674,26 @@ func (s *sim) scribble() {
 	s.res.Count("fault:caller_overwrites_its_slice_after_the_call", 1)
 }
 
+// reuseOptions: the caller's options object gets other contents once the
+// constructor has returned (the scheduler goroutine writes it: not instrumented).
+//
+//go:norace
+func (s *sim) reuseOptions(opts *multiendpoint.MultiEndpointOptions, r, d time.Duration) {
+	if opts.RecoveryTimeout != r || opts.SwitchingDelay != d {
+		s.res.Count("probe:constructor_edited_the_caller_options", 1)
+	}
+	switch (int(r/time.Millisecond)/10 + int(d/time.Millisecond)/10 + len(s.plan.Init)) % 3 {
+	case 0:
+		opts.RecoveryTimeout, opts.SwitchingDelay = 0, 0
+	case 1:
+		opts.RecoveryTimeout, opts.SwitchingDelay = 7*time.Hour, 3*time.Hour
+	default:
+		opts.RecoveryTimeout, opts.SwitchingDelay = d+time.Millisecond, r+time.Millisecond
+	}
+	opts.Endpoints = nil
+	s.res.Count("fault:caller_reuses_its_options_object", 1)
+}
+
 //go:norace
 func (s *sim) kernelFailure() {
 	f := s.k.Fail
@@ -890,11 +910,16 @@ func (s *sim) run(src *simkit.Source, logOn bool) {
 	mo := &model{list: list, r: time.Duration(p.RMs) * time.Millisecond, d: time.Duration(p.DMs) * time.Millisecond}
 	s.mo = mo
 	var err error
+	// The options object is the caller's: once the constructor has returned the
+	// caller reuses it for something else (another MultiEndpoint with other
+	// timeouts); the MultiEndpoint built from it keeps the values it was given.
+	opts := &multiendpoint.MultiEndpointOptions{
+		Endpoints: s.callerList(withDup(list, p.InitDup)), RecoveryTimeout: mo.r, SwitchingDelay: mo.d}
 	s.call("New", func() {
-		s.me, err = multiendpoint.NewMultiEndpoint(&multiendpoint.MultiEndpointOptions{
-			Endpoints: s.callerList(withDup(list, p.InitDup)), RecoveryTimeout: mo.r, SwitchingDelay: mo.d})
+		s.me, err = multiendpoint.NewMultiEndpoint(opts)
 	})
 	s.scribble()
+	s.reuseOptions(opts, mo.r, mo.d)
 	if s.stop {
 		s.finish()
 		return
